@@ -1,5 +1,5 @@
 SPECIFICATION Spec
-CONSTANTS Size = "q"  Variant = "corner"
+CONSTANTS Size = "q"  Variant = "z_from_y"
 INVARIANT TypeOK
 INVARIANT MaskIsInclusion
 INVARIANT RadiiByRule
